@@ -37,6 +37,10 @@ CLAIMED = {
         text="Lean theorems over all shapes/configurations: the validation ladders of quantize_weight, quantize_activation, SymmetricQuantizer and AffineQuantizer return ValueError or an accepted configuration that keeps the requested qtype, axis (size-1 axis of an 8-bit weight becomes per-tensor) and group size; accepted per-axis scales have exactly the keepdim shape; "
              "the automatic group size is, for every n, the largest of 128/96/64/32 dividing n (only for n > 128) and always groupable for Linear and Conv2d weights. Exhaustive correspondence of the decision (exception class or accepted configuration) on ~22k configurations of small shapes + C06 well-formedness of every accepted result.",
         design="6/C14", technique="Lean 4 proof of total decision tables + exhaustive differential correspondence on small shapes"),
+    "C15": dict(
+        text="Lean theorems for all admissible shapes: v1 pack/unpack round trip with and without column reordering (order lists regenerated from the source and checked inverse by decide), v2 pack equals the reference packer, v2 round trip, "
+             "zero-point recovery and back conversion of AWQBitsTensor to the standard representation, bound between the AWQ and standard dequantization. Correspondence on CPU (modules run with asserts off): the complete position permutation of every shape N<=32, K<=512 recovered from index-encoding inputs, random matrices, bit identity with external/awq/pack_intweight.py, AWQBitsTensor construction/dequantize/qbits_tensor bit-exact.",
+        design="6/C15", technique="Lean 4 proof of index-map bijections + regenerated tables + differential correspondence (python -O on CPU)"),
 }
 
 NOT_YET = "check not yet built in this round (build in progress; see DESIGN.md build order)"
